@@ -341,18 +341,19 @@ def work_reuse(arg):
 
 
 def nest_shape(arg):
-    outer, depth, inner = arg
+    outer, depth, inner = arg[:3]
+    width = arg[3] if len(arg) > 3 else 2
     import joblib
     from ..c15_tasks import nest
     import warnings
     warnings.simplefilter("ignore")
     p = joblib.Parallel(n_jobs=2, backend=outer)
-    trees = p(joblib.delayed(nest)(1, depth, inner) for _ in range(3))
+    trees = p(joblib.delayed(nest)(1, depth, inner, width) for _ in range(3))
     return {"main_pid": os.getpid(), "main_tid": threading.get_ident(), "trees": trees, "pids": [os.getpid()]}
 
 
 def judge_nesting(arg, res):
-    outer, depth, inner = arg
+    outer, depth, inner = arg[:3]
     bad = []
     main_pid = res["main_pid"]
     trees = res["trees"]
@@ -457,6 +458,9 @@ def run(ctx):
     for outer in ("loky", "multiprocessing", "threading"):
         for depth in (2, 3):
             shapes.append((outer, depth, None))
+        # more tasks per nested call than are pre-dispatched (2 * n_jobs = 4): the later batches are dispatched from the
+        # completion-callback thread of the pool, not from the thread that made the call
+        shapes.append((outer, 3, None, 6))
     if not quick:
         for outer in ("loky", "threading"):
             for inner in ("threading", "sequential"):
